@@ -62,6 +62,7 @@ class FrameAlgebra(object):
         self.cur = B(('PAYLOAD',))      # id + fields, as Packet.write left it
         self.wire = []
         self.vals = {}                  # uid of a call result -> value
+        self.locals = {}                # local buffer -> its content
 
     def err(self, msg, node):
         return AnalysisError('frame algebra: ' + msg, node, rel(self.fi.path))
@@ -71,6 +72,13 @@ class FrameAlgebra(object):
             return e.fn[1]
         if e.fn[0] == 'fn' and len(e.fn) > 2:
             return e.fn[2]
+        return None
+
+    def local_buffer(self, t):
+        """Key of a PacketBuffer constructed on this path, else None."""
+        if t is not None and t[0] == 'obj' and len(t) > 3 and \
+                getattr(t[3], 'name', None) == 'PacketBuffer':
+            return t[1]
         return None
 
     def val(self, t, node):
@@ -86,7 +94,7 @@ class FrameAlgebra(object):
             return 'len(%r)' % (self.val(t[2][0], node),)
         if t[0] == 'op' and t[1] == 'bytes' and not t[2]:
             return B(())
-        if t[0] == 'op' and t[1] == 'concat':
+        if t[0] == 'op' and t[1] in ('concat', '+') and len(t[2]) >= 2:
             parts = [self.val(x, node) for x in t[2]]
             if all(isinstance(x, B) for x in parts):
                 return B(sum((x.pieces for x in parts), ()))
@@ -98,6 +106,31 @@ class FrameAlgebra(object):
                 raise self.err('loop in the frame writer', e.node)
             r = self.recv(e)
             m = e.method()
+            if e.fn == ('ext', 'io.BytesIO') and not e.args:
+                continue                # the store of a fresh local buffer
+            k = self.local_buffer(r)
+            if k is not None:
+                # a buffer of its own made on the way (a helper that encodes
+                # one number): the same three operations, on its own content
+                own = e.fn[1].cls if e.fn[0] == 'fn' else None
+                if own is None or own.name != 'PacketBuffer':
+                    raise self.err('operation on a local buffer that is not '
+                                   'PacketBuffer\'s own', e.node)
+                if m == 'get_writable':
+                    self.vals[e.res[4]] = self.locals.get(k, B(()))
+                elif m == 'reset':
+                    self.locals[k] = B(())
+                elif m == 'send' and len(e.args) >= 1:
+                    v = self.val(e.args[-1], e.node)
+                    if not isinstance(v, B):
+                        raise self.err('buffer.send of a non-bytes value',
+                                       e.node)
+                    self.locals[k] = B(self.locals.get(k, B(())).pieces
+                                       + v.pieces)
+                else:
+                    raise self.err('unsupported buffer operation %s' % m,
+                                   e.node)
+                continue
             if r is not None and struct(r) == self.buf:
                 if m == 'get_writable':
                     self.vals[e.res[4]] = self.cur
@@ -134,7 +167,11 @@ class FrameAlgebra(object):
                     raise self.err('VarInt.send call shape', e.node)
                 n = self.val(args[0], e.node)
                 tgt = struct(args[1])
-                if tgt == self.buf:
+                lk = self.local_buffer(args[1])
+                if lk is not None:
+                    self.locals[lk] = B(self.locals.get(lk, B(())).pieces
+                                        + (piece_varint(n),))
+                elif tgt == self.buf:
                     self.cur = B(self.cur.pieces + (piece_varint(n),))
                 elif tgt == self.sock:
                     self.wire.append(piece_varint(n))
